@@ -300,6 +300,7 @@ def build():
                     'PoolT._acquire_worker': {'d1': 'dbname0'}, 'PoolT._release_worker': {'d1': 'dbname0'}})
     w._wreq, w._holds, w._unchanged = WREQ, HOLDS, UNCHANGED
     build_mt(w)
+    build_remote_server(w)
     return w
 
 def build_mt(w):
@@ -412,13 +413,38 @@ def build_mt(w):
     def part_mt(newv, present, oldv): return '%s == (unpk(some(%s)) if %s else %s)' % (newv, present.replace('not is_none(', '').rstrip(')') if False else present[len('not is_none('):-1], present, oldv)
     # multi-tenant worker, compile(): the transaction state kept for REUSE_LAST_STATE_MARKER is replaced only by a compile that returns one; a compile outside a transaction
     # (no state returned) leaves it alone -- the remote compiler server (server.MultiSchemaPool) keeps believing in it
+    # (every handler hands the compiler the five components recorded for the tenant / database -- a precondition of the compiler entry point at each call site)
+    MTARGS = dict(params={'user_schema': 'Obj', 'global_schema': 'Obj', 'reflection_cache': 'Obj', 'database_config': 'Obj', 'system_config': 'Obj'}, raises={'CompileError': {}},
+                  bind={'K_cs': 'clients[client_id]', 'K_db': 'clients[client_id].dbs[dbname]'}, tag='property',
+                  requires=['user_schema == K_db.user_schema', 'global_schema == K_cs.global_schema', 'reflection_cache == K_db.reflection_cache',
+                            'database_config == K_db.database_config', 'system_config == K_cs.instance_config'])
     w.contract(MTWK, 'compile', params={'client_id': 'Obj', 'dbname': 'Obj', 'compile_args': 'Seq[Obj]', 'compile_kwargs': 'Map[str,Obj]'},
         state={'clients': 'Map[Obj,CS]', 'COMPILER': 'CompilerT', 'LAST_STATE': 'Opt[Obj]'}, returns='Tuple[Obj,Opt[Obj]]', modifies=['LAST_STATE'],
         ensures=['implies(is_none(result[1]), LAST_STATE == old(LAST_STATE))', 'implies(not is_none(result[1]), not is_none(LAST_STATE) and some(result[1]) == pk(some(LAST_STATE)))',
                  'map_same(clients, old(clients))'],
         raises={'CompileError': dict(ensures=['LAST_STATE == old(LAST_STATE)']), 'KeyError': dict(ensures=['LAST_STATE == old(LAST_STATE)'])},
-        hints={'ext_funcs': {'CompilerT.compile_serialized_request': dict(params={'user_schema': 'Obj', 'global_schema': 'Obj', 'reflection_cache': 'Obj', 'database_config': 'Obj', 'system_config': 'Obj'},
-                                                                            returns='Tuple[Obj,Opt[Obj]]', raises={'CompileError': {}})}})
+        hints={'ext_funcs': {'CompilerT.compile_serialized_request': dict(MTARGS, returns='Tuple[Obj,Opt[Obj]]')}})
+    for fn_, meth_, ret_ in (('compile_notebook', 'compile_notebook', 'Obj'), ('compile_sql', 'compile_sql', 'Obj')):
+        w.contract(MTWK, fn_, params={'client_id': 'Obj', 'dbname': 'Obj', 'compile_args': 'Seq[Obj]', 'compile_kwargs': 'Map[str,Obj]'},
+            state={'clients': 'Map[Obj,CS]', 'COMPILER': 'CompilerT', 'LAST_STATE': 'Opt[Obj]'}, returns=ret_,
+            ensures=['map_same(clients, old(clients))', 'LAST_STATE == old(LAST_STATE)'], raises={'CompileError': {}, 'KeyError': {}},
+            hints={'ext_funcs': {'CompilerT.' + meth_: dict(MTARGS, returns=ret_)}})
+    MARK = 'state.REUSE_LAST_STATE_MARKER'
+    # multi-tenant worker, compile_in_tx(): as for the plain worker -- the statement is compiled against the state the marker stands for / the state supplied, whose root user
+    # schema is the one supplied (client_id None) or the tenant's recorded one; K is re-established for the returned state; a failing statement leaves LAST_STATE alone
+    w.contract(MTWK, 'compile_in_tx',
+        params={'_': 'Obj', 'client_id': 'Opt[Obj]', 'dbname': 'Opt[Obj]', 'user_schema': 'Opt[Obj]', 'cstate': 'Obj', 'args': 'Seq[Obj]', 'kwargs': 'Map[str,Obj]'},
+        ghost={'req_state': 'Obj', 'req_usp': 'Obj', 'reuse': 'bool'},
+        state={'clients': 'Map[Obj,CS]', 'LAST_STATE': 'Opt[Obj]', 'COMPILER': 'CompilerT'}, modifies=['LAST_STATE', 'Obj.root_user_schema'],
+        returns='Tuple[Obj,Obj]',
+        requires=['reuse == (cstate == %s)' % MARK, 'req_state != %s' % MARK,
+                  'implies(reuse, not is_none(LAST_STATE) and corr(some(LAST_STATE), req_state))',
+                  'implies(not reuse, cstate == req_state)',
+                  'implies(not reuse and is_none(client_id), not is_none(user_schema) and some(user_schema) == req_usp)',
+                  'implies(not reuse and not is_none(client_id), not is_none(dbname) and some(client_id) in clients and some(dbname) in clients[some(client_id)].dbs '
+                  'and clients[some(client_id)].dbs[some(dbname)].user_schema == unpk(req_usp))'],
+        ensures=['not is_none(LAST_STATE)', 'corr(some(LAST_STATE), result[1])'],
+        raises={'CompileError': dict(ensures=['LAST_STATE == old(LAST_STATE)']), 'PickleError': dict(ensures=['LAST_STATE == old(LAST_STATE)'])})
     w.contract(MTWK, '__sync__', params={'client_id': 'Obj', 'pickled_schema': 'Opt[PSch]', 'invalidation': 'Seq[Obj]'}, state={'clients': 'Map[Obj,CS]'}, ghost={'d0': 'Obj'}, returns='none',
         modifies=['clients'],
         requires=['implies(not is_none(pickled_schema), is_none(%s.dbs) or len(some(%s.dbs)) >= 0)' % (PSW, PSW)],
@@ -449,6 +475,50 @@ def build_mt(w):
 
 def configure(vf):
     pass
+
+def build_remote_server(w):
+    """the remote compiler SERVER (compiler_pool/server.py, MultiSchemaPool): what an instance transmitted is recorded per client by _sync (each part given replaces the
+    recorded one, the others stay), and what is forwarded to a worker is the DIFFERENCE between the recorded client state and what that worker holds:
+      PickledState.diff / ClientSchema.diff: a part is transmitted iff it is not (by identity) the part the worker holds; an unknown database is transmitted whole;
+      databases the worker holds and the client no longer has are listed as dropped"""
+    SRV = 'edb/server/compiler_pool/server.py'
+    w.rec('SPS', [('user_schema', 'Opt[Obj]'), ('reflection_cache', 'Opt[Obj]'), ('database_config', 'Opt[Obj]')], SRV, 'PickledState')
+    w.rec('SCS', [('dbs', 'Map[Obj,SPS]'), ('global_schema', 'Opt[Obj]'), ('instance_config', 'Opt[Obj]'), ('dropped_dbs', 'Seq[Obj]')], SRV, 'ClientSchema')
+    PART = lambda f: 'result.%s == (self.%s if self.%s != other.%s else None)' % (f, f, f, f)
+    w.contract(SRV, 'PickledState.diff', params={'self': 'SPS', 'other': 'SPS'}, returns='SPS',
+        ensures=[PART('user_schema'), PART('reflection_cache'), PART('database_config')])
+    D0 = 'd0'
+    w.contract(SRV, 'ClientSchema.diff', params={'self': 'SCS', 'other': 'SCS'}, returns='SCS', ghost={'d0': 'Obj'},
+        ensures=['result.global_schema == (self.global_schema if self.global_schema != other.global_schema else None)',
+                 'result.instance_config == (self.instance_config if self.instance_config != other.instance_config else None)',
+                 # one arbitrary database d0: transmitted whole if the worker does not know it, as a diff if it differs, not at all if identical or not the client's
+                 'implies(d0 in self.dbs and not (d0 in other.dbs), d0 in result.dbs and result.dbs[d0] == self.dbs[d0])',
+                 # (identity of the recorded states is not modelled: `is` is an arbitrary boolean that implies equality -- so "different values are transmitted" is what can be said)
+                 'implies(d0 in self.dbs and d0 in other.dbs and self.dbs[d0] != other.dbs[d0], d0 in result.dbs)',
+                 'implies(not (d0 in self.dbs), not (d0 in result.dbs))'],
+        abstract={'dropped_dbs = tuple((dbname for dbname in other.dbs if dbname not in self.dbs))': dict(assigns={'dropped_dbs': 'Seq[Obj]'})},
+        loops={0: dict(fingerprint='for (dbname, state) in self.dbs.items()', done='D', invariant=[
+                   'implies(d0 in D and not (d0 in other.dbs), d0 in dbs and dbs[d0] == self.dbs[d0])',
+                   'implies(d0 in D and d0 in other.dbs and self.dbs[d0] != other.dbs[d0], d0 in dbs)',
+                   'implies(not (d0 in D), not (d0 in dbs))'])},
+        hints={'var_types': {'dbs': 'Map[Obj,SPS]'}})
+    # _sync: the per-client record after an instance's request
+    w.refclass('MSP', {'_clients': 'Map[Obj,SCS]'})
+    OLDC = 'old(self._clients)[client_id]'; NEWC = 'self._clients[client_id]'
+    def kept(newv, arg, oldv): return '%s == (%s if not is_none(%s) else %s)' % (newv, arg, arg, oldv)
+    w.contract(SRV, 'MultiSchemaPool._sync', params={'self': 'MSP', 'client_id': 'Obj', 'dbname': 'Obj', 'user_schema': 'Opt[Obj]', 'reflection_cache': 'Opt[Obj]', 'global_schema': 'Opt[Obj]',
+                                                   'database_config': 'Opt[Obj]', 'system_config': 'Opt[Obj]'}, returns='bool', modifies=['MSP._clients'],
+        ensures=['client_id in self._clients', 'map_same_except(self._clients, old(self._clients), client_id)',
+                 kept('%s.global_schema' % NEWC, 'global_schema', '%s.global_schema' % OLDC), kept('%s.instance_config' % NEWC, 'system_config', '%s.instance_config' % OLDC),
+                 'dbname in %s.dbs' % NEWC, 'map_same_except(%s.dbs, %s.dbs, dbname)' % (NEWC, OLDC),
+                 'implies(dbname in %s.dbs, %s and %s and %s)' % (OLDC, kept('%s.dbs[dbname].user_schema' % NEWC, 'user_schema', '%s.dbs[dbname].user_schema' % OLDC),
+                                                                   kept('%s.dbs[dbname].reflection_cache' % NEWC, 'reflection_cache', '%s.dbs[dbname].reflection_cache' % OLDC),
+                                                                   kept('%s.dbs[dbname].database_config' % NEWC, 'database_config', '%s.dbs[dbname].database_config' % OLDC)),
+                 'implies(not (dbname in %s.dbs), %s.dbs[dbname].user_schema == user_schema and %s.dbs[dbname].reflection_cache == reflection_cache and %s.dbs[dbname].database_config == database_config)' % (OLDC, NEWC, NEWC, NEWC),
+                 'implies(not result, %s == %s)' % (NEWC, OLDC)],
+        raises={'KeyError': dict(ensures=['map_same(self._clients, old(self._clients))']), 'AssertionError': dict(ensures=['map_same(self._clients, old(self._clients))'])},
+        hints={'kwdict_vars': ['updates', 'client_updates']})
+    return w
 
 def extra_obligations(w, tier, seed):
     """remote (shared) compiler pool: RemotePool._compute_compile_preargs waits for the connection-wide state-sync lock.  What it returns must have been computed AFTER the last
